@@ -370,19 +370,6 @@ func convertReal(real core.ZodSchema, o Opt) (c compiled) {
 
 func b01(b bool) string { return hx.B01(b) }
 
-func probeLegacyRec() bool {
-	legacy := false
-	hx.Safely(func() {
-		js, err := gozod.ToJSONSchema(buildRec("field", gozod.String()))
-		if err != nil {
-			return
-		}
-		raw, err := json.Marshal(js)
-		legacy = err == nil && strings.Contains(string(raw), `"$ref":"#"`)
-	})
-	return legacy
-}
-
 // jsonable: the value Parse returned, with map[any]any (ZodMap's result type) turned into map[string]any.
 func jsonable(v any) any {
 	switch x := v.(type) {
@@ -599,10 +586,6 @@ func runC07(cfg hx.Config) error {
 		r.rawDocs, _ = os.Create(p)
 		defer r.rawDocs.Close()
 	}
-	// probe: does convertLazy give a cycle that does not close at the root its own $defs entry?  (The model is the
-	// converter with the fix C07-lazy-ref-nonroot; until it lands the old document is the model's `validTL`.)
-	legacyRec = probeLegacyRec()
-	out.Count("probe:convertLazy-answers-nonroot-cycle-with-#=" + b01(legacyRec))
 	corpus := corpusSchemas()
 	seen := map[string]bool{}
 	liveOf := map[*Sch]*live{}
